@@ -212,7 +212,7 @@ pub struct Tmpl {
     pub functions: bool,
 }
 
-pub const TEMPLATES: [&str; 15] = [
+pub const TEMPLATES: [&str; 19] = [
     "A + [1, 2].map(A, A * 2)[0] + A",
     "[[1, 2], [3]].map(A, A.map(B, B + 1))",
     "[1].map(A, A)[0] + A",
@@ -229,6 +229,12 @@ pub const TEMPLATES: [&str; 15] = [
     "[1, 2].map(A, A() + A)",
     "[1, 2].map(A, [3].map(B, A() + B() + A + B))",
     "[A(), [5].map(A, A)[0], [A()].map(B, B + A())[0]]",
+    // elements that are numerically equal to, but of another type than, the outer binding of the name / the previous element:
+    // the body must see the element itself (the results keep the elements' types)
+    "[1000u, 2000.0, 3000u, 1000.0, 2000u, 3000.0].map(A, [A])",
+    "[1, 1u, 1.0, 1, 1.0, 1u].map(A, [A])",
+    "[2].map(A, [2u, 2.0, 2].map(A, [A]))",
+    "[1000u, 2000u].map(A, [[1000.0, 2000.0, 3000.0].map(B, [A, B]), [A]])",
 ];
 
 fn instantiate(t: &Tmpl) -> String {
@@ -252,6 +258,8 @@ fn template_expr(t: &Tmpl) -> E {
     let (a, bb, c) = (n(0), n(1), n(2));
     let v = |s: &String| E::Var(s.clone());
     let i = |k: i64| E::Lit(V::Int(k));
+    let u = |k: u64| E::Lit(V::UInt(k));
+    let f = |k: f64| E::Lit(V::f(k));
     let l = |xs: Vec<E>| E::List(xs);
     let mac = |m: Mac, r: E, var: &String, body: E| E::Macro(m, b(r), var.clone(), vec![body]);
     let idx = |e: E, k: i64| E::Index(b(e), b(i(k)));
@@ -283,7 +291,11 @@ fn template_expr(t: &Tmpl) -> E {
         11 => E::bin(O::Add, mac(Mac::Map, l(vec![l(vec![i(1)]), l(vec![i(2)])]), &a, E::mcall(mac(Mac::Filter, v(&a), &a, E::bin(O::Gt, v(&a), i(1))), "size", vec![])), l(vec![v(&a)])),
         12 => mac(Mac::Map, l(vec![i(1), i(2)]), &a, E::bin(O::Add, E::call(&a, vec![]), v(&a))),
         13 => mac(Mac::Map, l(vec![i(1), i(2)]), &a, mac(Mac::Map, l(vec![i(3)]), &bb, E::bin(O::Add, E::bin(O::Add, E::bin(O::Add, E::call(&a, vec![]), E::call(&bb, vec![])), v(&a)), v(&bb)))),
-        _ => l(vec![E::call(&a, vec![]), idx(mac(Mac::Map, l(vec![i(5)]), &a, v(&a)), 0), idx(mac(Mac::Map, l(vec![E::call(&a, vec![])]), &bb, E::bin(O::Add, v(&bb), E::call(&a, vec![]))), 0)]),
+        14 => l(vec![E::call(&a, vec![]), idx(mac(Mac::Map, l(vec![i(5)]), &a, v(&a)), 0), idx(mac(Mac::Map, l(vec![E::call(&a, vec![])]), &bb, E::bin(O::Add, v(&bb), E::call(&a, vec![]))), 0)]),
+        15 => mac(Mac::Map, l(vec![u(1000), f(2000.0), u(3000), f(1000.0), u(2000), f(3000.0)]), &a, l(vec![v(&a)])),
+        16 => mac(Mac::Map, l(vec![i(1), u(1), f(1.0), i(1), f(1.0), u(1)]), &a, l(vec![v(&a)])),
+        17 => mac(Mac::Map, l(vec![i(2)]), &a, mac(Mac::Map, l(vec![u(2), f(2.0), i(2)]), &a, l(vec![v(&a)]))),
+        _ => mac(Mac::Map, l(vec![u(1000), u(2000)]), &a, l(vec![mac(Mac::Map, l(vec![f(1000.0), f(2000.0), f(3000.0)]), &bb, l(vec![v(&a), v(&bb)])), l(vec![v(&a)])])),
     }
 }
 
